@@ -44,7 +44,11 @@ PROPS = {
  "C19": dict(fp=[("auction.terms", None), ("seq", None), ("bid.terms", None), ("allowed", None), ("vqueue", None), ("bal.escrow", None)],
              tags=["two_open_auctions"]),
 }
+PROPS["C14"] = dict(fp=[("transfers", BLOCKS), ("hooks", BLOCKS)], special="c14",
+                    tags=["settle_batch_2bids", "settle_fixed_2bids", "settle_batch_sold", "release", "extend"])
 SPECIAL = {}
+TRANSLATORS = [("mapcensus", "MapLoops.v"), ("switchscan", "BuildSwitch.v"), ("clitables", "CliTables.v")]
+GENERATED = [t[1] for t in TRANSLATORS]
 
 def in_footprint(prop, m):
     kind = (m.get("op", "").split() + ["", ""])[1]
@@ -109,9 +113,10 @@ def write_evidence(prop, tier, seed, t0, R, C, violations, note=""):
     ev = dict(
         property_id=prop, tier=tier, seed=seed, level="proof",
         coverage=dict(
-            obligations=max(1, len(cs["theorems"])),
-            discharged=(len(cs["theorems"]) if cs["ok"] else 0),
+            obligations=max(1, len(cs.get("all_theorems", cs["theorems"]))),
+            discharged=len(cs["theorems"]),
             theorems=cs["theorems"],
+            theorem_files=cs.get("files", []),
             print_assumptions=("Closed under the global context x%d" % cs["closed"]) if not cs["axioms"] else ("Axioms: " + ", ".join(cs["axioms"])),
             checker_cmd="cd /verif/coq && coq_makefile -f _CoqProject -o Makefile && make -j16   (full .vo build; Properties/%s.v holds the statements, each closed by `exact` and followed by Print Assumptions)" % prop,
             trusted_base=TRUSTED,
@@ -199,3 +204,201 @@ def verdict(prop, tier, seed, t0, R, C, results, write_replay, write_broken, kno
     write_evidence(prop, tier, seed, t0, R, C, 1, note="no failing input found; no longer checks: " + "; ".join(broken)[:500])
     print("VIOLATION property=%s replay=%s no-failing-input-found" % (prop, path))
     return 1
+
+
+# ---------------------------------------------------------------- C14: runtime determinism
+def det_shard(args):
+    idx, first, n, ops, seed, outdir, profile = args
+    logf = os.path.join(outdir, "det%02d.log" % idx)
+    cmd = "%s -n %d -ops %d -seed %d -first %d -det 3 -profile %s -out %s" % (os.path.join(BUILD, "harness"), n, ops, seed, first, profile, logf)
+    rc, out = sh("timeout 3000 " + cmd + " > /dev/null 2>&1", cwd=BUILD)
+    return idx, rc, logf
+
+def c14_runtime(tier, seed):
+    """every history is executed three times in one process and (shard 0..3) again in a second process;
+    the complete logs (results, ordered transfers, hook calls, event-stream hashes, full state dumps) must be identical"""
+    from multiprocessing import Pool
+    key = (repo_hash(), verif_hash(), tier, seed)
+    cp = os.path.join(BUILD, "cache", "det-" + "-".join(str(k) for k in key) + ".json")
+    if os.path.exists(cp):
+        return json.load(open(cp))
+    outdir = os.path.join(BUILD, "runs", "det-" + "-".join(str(k) for k in key))
+    os.makedirs(outdir, exist_ok=True)
+    per = 8 if tier == "quick" else 100
+    profs = ["crowd", "batch", "multi", "crowd"]
+    jobs = [(i, 500000 + i * per, per, 60, seed, outdir, profs[i % 4]) for i in range(NPROC)]
+    t = time.time()
+    with Pool(NPROC) as p:
+        res = p.map(det_shard, jobs)
+    nondet, errors, settlements, hists = [], [], 0, 0
+    for idx, rc, logf in res:
+        if rc != 0:
+            errors.append("harness -det failed on shard %d rc=%d" % (idx, rc)); continue
+        for l in open(logf, errors="replace"):
+            if l.startswith("NONDET"):
+                d = parse_kv_line(l); d["log"] = logf; nondet.append(d)
+            elif l.startswith("HIST"):
+                hists += 1
+            elif l.startswith("X es") and " u" in l:
+                settlements += 1
+    # second process for the first four shards
+    cross = 0
+    for idx, first, n, ops, sd, od, prof in jobs[:4]:
+        logf2 = os.path.join(outdir, "det%02d.second.log" % idx)
+        sh("timeout 3000 %s -n %d -ops %d -seed %d -first %d -profile %s -out %s > /dev/null 2>&1" % (
+            os.path.join(BUILD, "harness"), n, ops, sd, first, prof, logf2), cwd=BUILD)
+        a = [l for l in open(os.path.join(outdir, "det%02d.log" % idx), errors="replace") if not l.startswith("NONDET")]
+        b = list(open(logf2, errors="replace"))
+        cross += 1
+        if a != b:
+            i = next((k for k in range(min(len(a), len(b))) if a[k] != b[k]), min(len(a), len(b)))
+            nondet.append(dict(hist="?", run="second-process", step="?", first=a[i].strip() if i < len(a) else "", other=b[i].strip() if i < len(b) else "", log=logf2))
+    log("determinism: %d histories x3 in-process, %d shards re-run in a second process, %d differences, %.1fs" % (hists, cross, len(nondet), time.time() - t))
+    R = dict(nondet=nondet, errors=errors, histories=hists, bidder_transfers=settlements, cross=cross, outdir=outdir)
+    json.dump(R, open(cp, "w"))
+    return R
+
+def special_c14(prop, tier, seed, t0, chk):
+    R = chk.results(tier, seed)
+    C = chk.coq_status()
+    D = c14_runtime(tier, seed)
+    if D["nondet"] or D["errors"]:
+        os.makedirs(os.path.join(BUILD, "replay"), exist_ok=True)
+        path = os.path.join(BUILD, "replay", "C14-nondeterminism.json")
+        item = (D["nondet"] or [{}])[0]
+        ops = []
+        if item.get("log") and item.get("hist", "?") != "?":
+            ops = history_ops(item["log"], item["hist"], int(item.get("step", 0)))
+        json.dump(dict(property="C14", kind="runtime", what="re-executing the same history gave a different log", item=item,
+                       errors=D["errors"], history=ops), open(path, "w"), indent=1)
+        write_evidence(prop, tier, seed, t0, R, C, max(1, len(D["nondet"])), note="runtime nondeterminism: %s" % str(item)[:300])
+        print("VIOLATION property=C14 replay=%s" % path)
+        return 1
+    rc = verdict(prop, tier, seed, t0, R, C, chk.results, chk.write_replay, chk.write_broken, chk.load_known(), chk.known_match)
+    # add the runtime figures to the evidence
+    ep = os.path.join(VERIF, "evidence", "C14.json")
+    ev = json.load(open(ep))
+    ev["coverage"]["runtime_determinism"] = dict(histories_executed_3x_in_process=D["histories"], shards_repeated_in_second_process=D["cross"],
+                                                 transfers_to_bidders_compared=D["bidder_transfers"], differences=0,
+                                                 compared="every line of the log: results, ordered bank transfers, ordered hook calls, hash of the ordered event stream, complete state and balance dumps")
+    ev["wall_s"] = round(time.time() - t0, 1)
+    json.dump(ev, open(ep, "w"), indent=1)
+    return rc
+SPECIAL["c14"] = special_c14
+
+
+# ---------------------------------------------------------------- C20: the built binary
+def build_binary():
+    out_bin = os.path.join(BUILD, "fundraisingd")
+    stamp = os.path.join(BUILD, "fundraisingd.stamp")
+    h = repo_hash()
+    if os.path.exists(stamp) and open(stamp).read() == h and os.path.exists(out_bin):
+        return 0, ""
+    t = time.time()
+    rc, out = sh("timeout 2400 go build -o %s ./cmd/fundraisingd" % out_bin, cwd=REPO, env=GOENV)
+    log("go build ./cmd/fundraisingd rc=%d in %.1fs" % (rc, time.time() - t))
+    if rc == 0:
+        open(stamp, "w").write(h)
+    elif os.path.exists(stamp):
+        os.remove(stamp)
+    return rc, out
+
+ADDR_RE = re.compile(r"cosmos1[0-9a-z]{38}")
+def c20_runtime(tier):
+    """runs the binary built from /repo with default settings; returns (failures, commands_run, samples)"""
+    import tempfile
+    fails, ran, samples = [], 0, []
+    rc, out = build_binary()
+    if rc != 0:
+        return [dict(cmd="go build ./cmd/fundraisingd", rc=rc, output=out[-1500:])], 0, []
+    B = os.path.join(BUILD, "fundraisingd")
+    home = os.path.join(BUILD, "fdhome")
+    if os.path.isdir(home):
+        shutil.rmtree(home)
+    def run(args, expect_rc=0):
+        nonlocal ran
+        ran += 1
+        rc, out = sh("timeout 120 %s %s%s" % (B, args, "" if args.endswith("--help") else " --home " + home))
+        if rc != expect_rc:
+            fails.append(dict(cmd="fundraisingd " + args, rc=rc, output=out[-1200:]))
+        return rc, out
+    run("--help")
+    run("init verif --chain-id verif-1")
+    run("keys add alice --keyring-backend test")
+    rc, out = run("keys show alice -a --keyring-backend test")
+    alice = (ADDR_RE.findall(out) or ["?"])[-1]
+    expected = {"query": ["get-allowed-bidder", "get-auction", "get-bid", "list-allowed-bidder", "list-auction", "list-bid", "list-vesting-queue", "params"],
+                "tx": ["cancel-auction", "create-batch-auction", "create-fixed-price-auction", "modify-bid", "place-bid"]}
+    for kind, names in expected.items():
+        rc, out = run("%s fundraising --help" % kind)
+        listed = re.findall(r"^  ([a-z][a-z0-9-]+)\s", out.split("Available Commands:")[-1].split("Flags:")[0], flags=re.M) if "Available Commands:" in out else []
+        for n in names:
+            if n not in listed:
+                fails.append(dict(cmd="fundraisingd %s fundraising --help" % kind, rc=rc, output="command %s is not listed; listed: %s" % (n, listed)))
+            run("%s fundraising %s --help" % (kind, n))
+        samples.append(dict(cmd="%s fundraising --help" % kind, commands=listed))
+    # what the user types is what is sent: offline-generated transactions, field by field
+    T = "--from alice --keyring-backend test --generate-only --offline --account-number 1 --sequence 1"
+    cases = [
+     ("tx fundraising place-bid 3 batch-worth 500000000000000000 100denomb",
+      {"@type": "/fundraising.fundraising.v1.MsgPlaceBid", "auction_id": "3", "bidder": alice, "bid_type": "BID_TYPE_BATCH_WORTH", "price": "0.500000000000000000", "coin": {"denom": "denomb", "amount": "100"}}),
+     ("tx fundraising modify-bid 3 7 1500000000000000000 42denoma",
+      {"@type": "/fundraising.fundraising.v1.MsgModifyBid", "auction_id": "3", "bidder": alice, "bid_id": "7", "price": "1.500000000000000000", "coin": {"denom": "denoma", "amount": "42"}}),
+     ("tx fundraising cancel-auction 9",
+      {"@type": "/fundraising.fundraising.v1.MsgCancelAuction", "auctioneer": alice, "auction_id": "9"}),
+     ("tx fundraising create-fixed-price-auction 1500000000000000000 1000denoma denomb '{\"release_time\":\"2030-01-01T00:00:00Z\",\"weight\":\"1000000000000000000\"}' 2029-01-01T00:00:00Z 2029-06-01T00:00:00Z",
+      {"@type": "/fundraising.fundraising.v1.MsgCreateFixedPriceAuction", "auctioneer": alice, "start_price": "1.500000000000000000", "selling_coin": {"denom": "denoma", "amount": "1000"}, "paying_coin_denom": "denomb",
+       "vesting_schedules": [{"release_time": "2030-01-01T00:00:00Z", "weight": "1.000000000000000000"}], "start_time": "2029-01-01T00:00:00Z", "end_time": "2029-06-01T00:00:00Z"}),
+     ("tx fundraising create-batch-auction 2000000000000000000 100000000000000000 5000denomc denomd '{\"release_time\":\"2030-01-01T00:00:00Z\",\"weight\":\"1000000000000000000\"}' 3 50000000000000000 2029-01-01T00:00:00Z 2029-06-01T00:00:00Z",
+      {"@type": "/fundraising.fundraising.v1.MsgCreateBatchAuction", "auctioneer": alice, "start_price": "2.000000000000000000", "min_bid_price": "0.100000000000000000", "selling_coin": {"denom": "denomc", "amount": "5000"},
+       "paying_coin_denom": "denomd", "vesting_schedules": [{"release_time": "2030-01-01T00:00:00Z", "weight": "1.000000000000000000"}], "max_extended_round": 3, "extended_round_rate": "0.050000000000000000",
+       "start_time": "2029-01-01T00:00:00Z", "end_time": "2029-06-01T00:00:00Z"}),
+    ]
+    for args, want in cases:
+        rc, out = run(args + " " + T)
+        if rc != 0:
+            continue
+        try:
+            js = json.loads(out[out.index("{"):])
+            got = js["body"]["messages"][0]
+        except Exception as e:
+            fails.append(dict(cmd="fundraisingd " + args, rc=rc, output="no transaction JSON: " + out[-600:])); continue
+        if got != want:
+            fails.append(dict(cmd="fundraisingd " + args, rc=rc, output="typed arguments and generated message differ", expected=want, got=got))
+        samples.append(dict(cmd=args, message=got))
+    # a query command needs a node; without one it must fail with a connection error, not with a binding error
+    rc, out = sh("timeout 60 %s query fundraising get-bid 1 2 --node tcp://127.0.0.1:1 --home %s" % (B, home)); ran += 1
+    if "can't find field" in out or "unknown command" in out or "accepts" in out:
+        fails.append(dict(cmd="fundraisingd query fundraising get-bid 1 2", rc=rc, output=out[-600:]))
+    shutil.rmtree(home, ignore_errors=True)
+    return fails, ran, samples
+
+def special_c20(prop, tier, seed, t0, chk):
+    C = chk.coq_status()
+    cs = C["props"].get("C20", dict(ok=False, theorems=[], error="missing"))
+    fails, ran, samples = c20_runtime(tier)
+    os.makedirs(os.path.join(BUILD, "replay"), exist_ok=True)
+    ev = dict(property_id="C20", tier=tier, seed=seed, level="proof",
+              coverage=dict(obligations=max(1, len(cs.get("all_theorems", cs["theorems"]))), discharged=len(cs["theorems"]), theorems=cs["theorems"],
+                            print_assumptions="Closed under the global context x%d" % cs.get("closed", 0) if not cs.get("axioms") else "Axioms: %s" % cs["axioms"],
+                            checker_cmd="cd /verif/coq && make  (Properties/C20.v over Generated/CliTables.v, regenerated from /repo by harness/cmd/clitables; complete enumeration of the finite command table by vm_compute)",
+                            trusted_base=["Coq 8.16.1 kernel, vm_compute", "harness/cmd/clitables (reads AppModule.AutoCLIOptions() and the registered proto descriptors of the linked code)",
+                                          "coq/Cli.v: hand transcription of client/v2 autocli's binding rules (flag/builder.go addMessageFlags)",
+                                          "the runtime part runs the binary built from /repo; the rest of the application's start-up (other modules, config, ports) is exercised, not proved"],
+                            exhaustive=True, evaluations=ran, distinct_nontrivial=len(samples), commands_run=ran, runtime_failures=len(fails),
+                            rule="every command the module registers: --help of root, of `query|tx fundraising` and of each sub-command must exit 0 and be listed; each transaction command is run with --generate-only --offline and the generated message compared field by field with the typed arguments",
+                            samples=samples[:6]),
+              assumptions=["see trusted_base"], wall_s=round(time.time() - t0, 1), violations=len(fails))
+    json.dump(ev, open(os.path.join(VERIF, "evidence", "C20.json"), "w"), indent=1)
+    if fails:
+        path = os.path.join(BUILD, "replay", "C20-binary.json")
+        json.dump(dict(property="C20", kind="runtime", what="the binary built from /repo misbehaves on a module command", failures=fails), open(path, "w"), indent=1)
+        print("VIOLATION property=C20 replay=%s" % path)
+        return 1
+    if not cs["ok"] or C.get("forbidden"):
+        path = chk.write_broken("C20", ["theorem file coq/Properties/C20.v no longer checks (the AutoCLI table regenerated from /repo does not bind): " + cs.get("error", "")[:1500]])
+        print("VIOLATION property=C20 replay=%s no-failing-input-found" % path)
+        return 1
+    return 0
+SPECIAL["c20"] = special_c20
+PROPS["C20"] = dict(fp=[], tags=[], special="c20")
